@@ -1,5 +1,6 @@
 import AC.ProgramX
 import AC.ProgramTie
+import AC.ChainTie
 /-! # C18 — program builders reject bad operands; program analyses match their definitions
 
 Model: `P.PX` (AC/ProgramX.lean): `padd/pdouble/pshift` (`Program.Add/Double/Shift` with Go `int`
@@ -349,6 +350,20 @@ theorem C18_src_deps (p : List Op) (hp : InRange p) :
       ∀ k, k ≤ p.length → ∀ j, ((ds.getD k 0).testBit j = true ↔ Reach p j k) := by
   obtain ⟨ds, h1, h2, h3⟩ := C18_deps_spec p hp
   exact ⟨ds, by rw [dependencies_tie, h1]; rfl, h2, h3⟩
+
+/-- translated `Product` on valid ascending chains: no panic, a valid ascending chain extending `a`
+    that ends at the product of the end values -/
+theorem C18_src_product (a b : Chain) (ha : IsChain a) (haa : a.Pairwise (· < ·))
+    (hb : IsChain b) (hba : b.Pairwise (· < ·)) :
+    ∃ c, fnProduct a b = some c ∧ IsChain c ∧ c.Pairwise (· < ·) ∧
+      c.getLastD 0 = a.getLastD 0 * b.getLastD 0 ∧ a <+: c := by
+  rw [AC.ChainTie.product_tie]; exact C18_product_ok a b ha haa hb hba
+
+/-- translated `Plus` on a valid ascending chain and one of its members -/
+theorem C18_src_plus (a : Chain) (x : Int) (ha : IsChain a) (haa : a.Pairwise (· < ·)) (hx : x ∈ a) :
+    ∃ c, fnPlus a x = some c ∧ IsChain c ∧ c.Pairwise (· < ·) ∧
+      c.getLastD 0 = a.getLastD 0 + x ∧ c = a ++ [a.getLastD 0 + x] := by
+  rw [AC.ChainTie.plus_tie]; exact C18_plus_ok a x ha haa hx
 
 /-- non-vacuity: the translated builders on a concrete sequence (accepted add, rejected add,
     shift by two, rejected double) and the translated analyses of the result -/
